@@ -13,10 +13,11 @@ import (
 // (type, table, key) leave the logical content of EVERY other (type, table, key) unchanged and remove exactly what
 // they address. Oracle-only (the range theorems of Props/C12.lean say which storage keys the ranges hold; here the
 // real operations are run on a real store with adversarial table / key names).
-//   open <eng> <policy>
-//   pop <type> <hexraw> [<hexsub>…]
-//   deltable <hextable>        whole-table delete (RockDB.DeleteTableRange)
-//   clear <type> <hexraw>      hclear / lclear / sclear / zclear / del through the store API
+//
+//	open <eng> <policy>
+//	pop <type> <hexraw> [<hexsub>…]
+//	deltable <hextable>        whole-table delete (RockDB.DeleteTableRange)
+//	clear <type> <hexraw>      hclear / lclear / sclear / zclear / del through the store API
 func init() { register(&Proto{Name: "isol", Gen: genIsol, New: newIsol}) }
 
 var isolTypes = []string{"kv", "hash", "list", "set", "zset"}
